@@ -151,27 +151,7 @@ func issuerFacts(issuerData map[string]any, a *Arte) (string, stateFacts) {
 	st := stateOf(asMap(issuerData["state"]), "value")
 	did, err := w3c.ParseDID(str(issuerData, "id"))
 	didOK := err == nil
-	resolve := "DErr"
-	if a.DIDDoc != nil {
-		inner, present := a.DIDDoc["didDocument"]
-		info := "None"
-		if im := asMap(inner); im != nil {
-			if vms, ok := im["verificationMethod"].([]any); ok {
-				for _, e := range vms {
-					if vm := asMap(e); vm != nil && str(vm, "type") == "Iden3StateInfo2023" {
-						switch p := vm["published"].(type) {
-						case bool:
-							info = "(Some (Some " + b2c(p) + "))"
-						default:
-							info = "(Some None)"
-						}
-						break
-					}
-				}
-			}
-		}
-		resolve = fmt.Sprintf("(DDoc %s %s)", didDocJV(inner, present), info)
-	}
+	resolve := didAnswerFacts(a.didAnswer())
 	idOK, genesis := false, "None"
 	if didOK && st.hv != nil {
 		did.Query = fmt.Sprintf("state=%s", st.hv.Hex())
@@ -196,33 +176,43 @@ type credStatusMirror struct {
 
 // statusAnswerFacts: what IssuerResolver would hand to ValidateCredentialStatus
 func statusAnswerFacts(a *Arte, url string, nonce uint64) string {
-	if a.Status == nil || !strings.HasPrefix(url, statusHost) {
+	if !strings.HasPrefix(url, statusHost) {
 		return "RAErr"
 	}
-	b, _ := json.Marshal(a.Status)
-	if len(b) >= verifiable.VerifLimitReaderBytes {
+	ra := a.statusAnswer()
+	if ra.Transport || ra.Code < 200 || ra.Code >= 300 || len(ra.Body) >= verifiable.VerifLimitReaderBytes {
 		return "RAErr"
 	}
-	var probe struct {
-		Issuer map[string]any `json:"issuer"`
-		MTP    any            `json:"mtp"`
+	dec := json.NewDecoder(strings.NewReader(string(ra.Body)))
+	dec.UseNumber()
+	var v any
+	if err := dec.Decode(&v); err != nil {
+		return "RAErr" // json.Unmarshal fails: syntax
 	}
-	if err := json.Unmarshal(b, &probe); err != nil {
-		// member kinds the probe does not take: the decoder skeleton decides (kinds_ok = false)
-		return fmt.Sprintf("(RAns %s (mkstatef HNil_ HNil_ HNil_ HNil_ false false) (mkmtpf false None LErr))", statusJ(a.Status))
+	if dec.More() {
+		return "RAErr" // trailing data: json.Unmarshal fails
 	}
-	st := stateOf(probe.Issuer, "state")
-	want := st.hrtr
-	if st.rtr == "HNil_" {
+	v = numbersToFloat(v)
+	if v == nil {
+		v = map[string]any{} // null leaves the zero RevocationStatus
+	}
+	st, ok := v.(map[string]any)
+	if !ok {
+		return "RAErr" // cannot unmarshal array / string / number into RevocationStatus
+	}
+	issuer := asMap(st["issuer"])
+	sf := stateOf(issuer, "state")
+	want := sf.hrtr
+	if sf.rtr == "HNil_" {
 		want = &merkletree.HashZero
 	}
-	mtp := probe.MTP
+	mtp := st["mtp"]
 	if mtp == nil {
 		mtp = map[string]any{} // a value member: absent = zero proof
 	}
 	m := mtpOf(mtp, true, want, new(big.Int).SetUint64(nonce), big.NewInt(0))
 	m = strings.TrimSuffix(strings.TrimPrefix(m, "(Some "), ")")
-	return fmt.Sprintf("(RAns %s %s %s)", statusJ(a.Status), st.coq(), m)
+	return fmt.Sprintf("(RAns %s %s %s)", statusJ(st), sf.coq(), m)
 }
 
 func claimFromHex(s string) (*core.Claim, bool) {
@@ -254,8 +244,20 @@ func ProofSel(a *Arte, vc *verifiable.W3CCredential, loader *ctxload.Loader) str
 		return "SelNone"
 	}
 	claim, claimOK := claimFromHex(str(sel, "coreClaim"))
+	// json.Marshal(vc) marshals EVERY typed proof of the credential
+	deep := false
+	for _, p := range proofs {
+		if m := asMap(p); m != nil {
+			switch verifiable.ProofType(str(m, "type")) {
+			case verifiable.BJJSignatureProofType:
+				deep = deep || deepMTP(asMap(m["issuerData"])["mtp"])
+			case verifiable.Iden3SparseMerkleTreeProofType, verifiable.Iden3SparseMerkleProofType:
+				deep = deep || deepMTP(asMap(m["issuerData"])["mtp"]) || deepMTP(m["mtp"])
+			}
+		}
+	}
 	bindOK := false
-	if claimOK && vc != nil {
+	if claimOK && vc != nil && !deep {
 		o := guard(watchdog, func() error {
 			return vc.VerifVerifyCoreClaim(context.Background(), claim, []merklize.MerklizeOption{merklize.WithDocumentLoader(loader)})
 		})
@@ -333,20 +335,24 @@ func ProofSel(a *Arte, vc *verifiable.W3CCredential, loader *ctxload.Loader) str
 			}
 		}
 		status := fmt.Sprintf("(mkstatusf %s %s %s %s)", raw, b2c(nonceEq), b2c(registered), answer)
-		return fmt.Sprintf("(SelBJJ %s %s %s true (mkbjjf %s %s %s %s %s %s %s))", b2c(claimOK), b2c(bindOK), b2c(deepMTP(issuerData["mtp"])),
+		return fmt.Sprintf("(SelBJJ %s %s %s true (mkbjjf %s %s %s %s %s %s %s))", b2c(claimOK), b2c(deep), b2c(bindOK),
 			b2c(authOK), sig, b2c(hihvOK), mtp, b2c(authHiHvOK), iss, status)
 	case verifiable.Iden3SparseMerkleTreeProofType:
 		mv, mpresent := sel["mtp"]
 		mtp := mtpOf(mv, mpresent, st.hctr, hi, hv)
-		return fmt.Sprintf("(SelSMT %s %s %s true (mksmtf %s %s %s))", b2c(claimOK), b2c(bindOK), b2c(deepMTP(issuerData["mtp"]) || deepMTP(sel["mtp"])), iss, b2c(hihvOK), mtp)
+		return fmt.Sprintf("(SelSMT %s %s %s true (mksmtf %s %s %s))", b2c(claimOK), b2c(deep), b2c(bindOK), iss, b2c(hihvOK), mtp)
 	default:
-		return fmt.Sprintf("(SelOther %s %s)", b2c(claimOK), b2c(bindOK))
+		return fmt.Sprintf("(SelOther %s %s %s)", b2c(claimOK), b2c(deep), b2c(bindOK))
 	}
 }
 
 // StatusF renders the `statusf` term for ValidateCredentialStatus on a status answer.
 func StatusF(status map[string]any, nonce uint64) string {
-	a := &Arte{Status: status}
+	return StatusFRaw(&Arte{Status: status}, nonce)
+}
+
+// StatusFRaw: the same for an artefact set carrying a raw status answer.
+func StatusFRaw(a *Arte, nonce uint64) string {
 	return fmt.Sprintf("(mkstatusf (RSObj true true) true true %s)", statusAnswerFacts(a, statusHost+"x", nonce))
 }
 
@@ -431,3 +437,45 @@ func deepMTP(v any) bool {
 	arr, _ := m["siblings"].([]any)
 	return len(arr) > 240
 }
+
+// didAnswerFacts renders `didans` for an HTTP answer of the DID resolver
+// (HTTPDIDResolver ignores the status code and decodes the first JSON value).
+func didAnswerFacts(ra *rawAnswer) string {
+	if ra == nil || ra.Transport {
+		return "DErr"
+	}
+	dec := json.NewDecoder(strings.NewReader(string(ra.Body)))
+	dec.UseNumber()
+	var env any
+	if err := dec.Decode(&env); err != nil {
+		return "DErr" // empty, truncated, not JSON
+	}
+	env = numbersToFloat(env)
+	if env == nil {
+		return "DNull"
+	}
+	em, ok := env.(map[string]any)
+	if !ok {
+		return "DErr" // json: cannot unmarshal array / string / number into the result struct
+	}
+	inner, present := em["didDocument"]
+	info := "None"
+	if im := asMap(inner); im != nil {
+		if vms, ok := im["verificationMethod"].([]any); ok {
+			for _, e := range vms {
+				if vm := asMap(e); vm != nil && str(vm, "type") == "Iden3StateInfo2023" {
+					switch p := vm["published"].(type) {
+					case bool:
+						info = "(Some (Some " + b2c(p) + "))"
+					default:
+						info = "(Some None)"
+					}
+					break
+				}
+			}
+		}
+	}
+	return fmt.Sprintf("(DDoc %s %s)", didDocJV(inner, present), info)
+}
+
+func w3cParse(s string) (*w3c.DID, error) { return w3c.ParseDID(s) }
